@@ -15,6 +15,14 @@ pub mod utc;
 #[cfg(not(feature = "timezone-db"))]
 pub use utc::*;
 
+/// The UTC offset as it is written in RFC 3339 text: whole minutes, the seconds
+/// of a local mean time offset being rounded.
+pub(crate) fn rfc3339_offset<O: chrono::Offset>(offset: &O) -> chrono::FixedOffset {
+    let seconds = offset.fix().local_minus_utc();
+    let minutes = (seconds as f64 / 60.0).round() as i32;
+    chrono::FixedOffset::east_opt(minutes * 60).unwrap_or_else(|| offset.fix())
+}
+
 pub(super) fn fixed_timezone(offset: &str) -> String {
     // `offset` is a UTC offset formatted as `+HH:MM`
     let gmt_sign = offset[0..1].to_string();
